@@ -71,6 +71,11 @@ class Items(Model):
 
         return Filtered(self.n, at)
 
+    def set_comprehension(self, I, node, gen, fr):
+        f = self.comprehension(I, node, gen, fr)
+        f.is_set = True
+        return f
+
 
 def h_key_above_threshold(I, fi):
     P = I.P
